@@ -216,7 +216,7 @@ def check_density(case, ctx):
         require(v.shape == (n,), lambda: "random_walk_density: vector %d has shape %r" % (t, v.shape),
                 key="shape")
         if t == 0:
-            require(np.array_equal(v, s0), lambda: "random_walk_density: first vector %r is not the start %r"
+            require(np.allclose(v, s0, rtol=0, atol=1e-12), lambda: "random_walk_density: first vector %r is not the start %r"
                     % (v.tolist(), s0.tolist()), key="first")
         else:
             cur = [sum(cur[i] * Kx[i][j] for i in range(n)) for j in range(n)]
